@@ -25,6 +25,8 @@ import (
 	"strconv"
 	"strings"
 	"sync"
+	"unicode"
+	"unicode/utf16"
 	"unsafe"
 
 	"gitee.com/xuesongtao/protoc-go-valid/valid"
@@ -496,21 +498,84 @@ func dumpLex(s string) []dumpTok {
 			toks = append(toks, dumpTok{T: string(c)})
 			i++
 		case c == '"':
+			// a JSON string: the standard escapes are decoded (an escaped character is the character), anything else
+			// after a backslash, a raw control character or a missing closing quote makes the token "bad"
 			j := i + 1
-			clean := true
-			for j < len(s) && s[j] != '"' {
-				if s[j] < 0x20 || s[j] == '\\' {
-					clean = false
+			var sb strings.Builder
+			ok, closed := true, false
+			for j < len(s) {
+				ch := s[j]
+				if ch == '"' {
+					closed = true
+					break
 				}
-				j++
+				if ch < 0x20 {
+					ok = false
+					j++
+					continue
+				}
+				if ch != '\\' {
+					sb.WriteByte(ch)
+					j++
+					continue
+				}
+				if j+1 >= len(s) {
+					ok = false
+					j++
+					break
+				}
+				switch e := s[j+1]; e {
+				case '"', '\\', '/':
+					sb.WriteByte(e)
+					j += 2
+				case 'b':
+					sb.WriteByte('\b')
+					j += 2
+				case 'f':
+					sb.WriteByte('\f')
+					j += 2
+				case 'n':
+					sb.WriteByte('\n')
+					j += 2
+				case 'r':
+					sb.WriteByte('\r')
+					j += 2
+				case 't':
+					sb.WriteByte('\t')
+					j += 2
+				case 'u':
+					r, n := dumpHex4(s, j+2)
+					if n == 0 {
+						ok = false
+						j += 2
+						break
+					}
+					j += 2 + n
+					if utf16.IsSurrogate(r) {
+						r2, n2 := rune(0), 0
+						if j+1 < len(s) && s[j] == '\\' && s[j+1] == 'u' {
+							r2, n2 = dumpHex4(s, j+2)
+						}
+						if d := utf16.DecodeRune(r, r2); n2 > 0 && d != unicode.ReplacementChar {
+							r = d
+							j += 2 + n2
+						} else {
+							r = unicode.ReplacementChar
+						}
+					}
+					sb.WriteRune(r)
+				default:
+					ok = false
+					j += 2
+				}
 			}
-			if j >= len(s) { // unterminated
+			if !closed { // unterminated
 				toks = append(toks, dumpTok{T: "bad", S: s[i+1:]})
 				i = len(s)
 				break
 			}
-			if clean {
-				toks = append(toks, dumpTok{T: "str", S: s[i+1 : j]})
+			if ok {
+				toks = append(toks, dumpTok{T: "str", S: sb.String()})
 			} else {
 				toks = append(toks, dumpTok{T: "bad", S: s[i+1 : j]})
 			}
@@ -535,6 +600,18 @@ func dumpLex(s string) []dumpTok {
 		}
 	}
 	return toks
+}
+
+// dumpHex4 reads four hex digits at s[i:]; n = 4 on success, 0 otherwise.
+func dumpHex4(s string, i int) (rune, int) {
+	if i+4 > len(s) {
+		return 0, 0
+	}
+	v, err := strconv.ParseUint(s[i:i+4], 16, 32)
+	if err != nil {
+		return 0, 0
+	}
+	return rune(v), 4
 }
 
 // dumpDecode decodes JSON text with encoding/json into the document shape of the spec (nil if not JSON).
@@ -797,8 +874,10 @@ var dumpExpNames = []string{"A", "B", "Name", "ID", "X1", "Time", "URL", "Val_2"
 var dumpUnexpNames = []string{"a", "b", "name", "_x", "x1", "time", "zz"}
 
 // characters that need no escape in JSON (and that encoding/json does not escape with SetEscapeHTML(false))
-var dumpAlphabet = []rune("abcXYZ019 ,:{}[]-_.!?@#$%^*()+=~;'/|<>&éß中文😀")
-var dumpSpecialStrings = []string{"", "true", "false", "null", "123", "-1.5", "a b", "{}", "[]", ",", ":", "a,b:c", "{é}"}
+// (DEL, no-break space, zero-width space, a tag character and the last code point need no JSON escape either - they are
+// "non-printable" for strconv.Quote, which is exactly why they are here)
+var dumpAlphabet = []rune("abcXYZ019 ,:{}[]-_.!?@#$%^*()+=~;'/|<>&éß中文😀\u007f\u00a0\u200b\U000e0001\U0010ffff")
+var dumpSpecialStrings = []string{"", "true", "false", "null", "123", "-1.5", "a b", "{}", "[]", ",", ":", "a,b:c", "{é}", "\u007f", "x\U000e0001y", "\U0010ffff"}
 
 func (g *dumpGen) scalar() *dumpType {
 	switch g.rng.Intn(5) {
